@@ -34,7 +34,7 @@ DATA = os.path.join(harness.REPO, "tests", "sample_test_data")
 # ------------------------------------------------------------------------------------- bases
 SAMPLES = {
     "unary": dict(path="unary.dump", d=3, frames=[0], obs=["gr", "sq", "neigh", "boo3d", "tetra", "s2"]),
-    "quart": dict(path="quarternary.dump", d=3, frames=[0, 1], obs=["gr", "sq"]),
+    "quart": dict(path="quarternary.dump", d=3, frames=[0], obs=["gr", "sq"]),
     "ipl2d": dict(path="IS.2DIPL.atom", d=2, frames=[0], obs=["gr", "sq", "neigh", "boo2d", "s2"]),
     "2ds": dict(path="2d/2ddump.s.atom", d=2, frames=[0, 1, 2], obs=["relaxx"]),
     "2du": dict(path="2d/2ddump.u.atom", d=2, frames=[0, 1, 2], obs=["relaxu"]),
@@ -66,24 +66,28 @@ def _load_sample(name):
 
 
 def sample_params(name, cfg, obs):
-    """observable parameters for a repository sample + the per-particle / global margins (computed once)"""
+    """observable parameters for a repository sample (lengths in units of the mean spacing) + the per-particle
+    margins (computed once per file)"""
     d = cfg["d"]
     n = len(cfg["types"])
     K = int(cfg["types"].max())
     L = np.diag(cfg["H"])
-    par = {"rdelta": [0.05 if n <= 1000 else 0.1], "knn": 12 if d == 3 else 6, "nn_N": [12 if d == 3 else 6], "rcut": 1.5,
+    ell = round(float((np.prod(L) / n) ** (1.0 / d)), 2)
+    par = {"rdelta": [0.05 if n <= 1000 else 0.1], "knn": 12 if d == 3 else 6, "nn_N": [12 if d == 3 else 6], "rcut": 1.5 * ell,
            "rcut_type": None, "qrange": 3.0 if n <= 1000 else 1.5, "qexplicit": False,
-           "s2": {"rdelta": 0.05, "ndelta": 40, "sigmas": np.full((K, K), 0.2) + 0.02 * np.add.outer(np.arange(K), np.arange(K))},
+           "s2": {"rdelta": 0.05 * ell, "ndelta": 40, "sigmas": (np.full((K, K), 0.15) + 0.01 * np.add.outer(np.arange(K), np.arange(K))) * ell},
            "dyn": {"diameters": {t: 1.0 + 0.1 * (t - 1) for t in range(1, K + 1)}, "a": 0.3}, "bool_l": [6], "w_l": []}
     if obs in ("neigh", "boo3d", "boo2d", "tetra", "s2"):
         rmax = (par["s2"]["ndelta"] - 1) * par["s2"]["rdelta"] + par["s2"]["rdelta"] / 2
         ks = sorted({par["knn"], par["nn_N"][0], 4})
-        st = S.pair_stats({**cfg, "frames": cfg["frames"][:1]}, 0, knn=ks, cuts=[par["rcut"], rmax])
+        if ("stats", name) not in _CACHE:
+            _CACHE["stats", name] = S.pair_stats({**cfg, "frames": cfg["frames"][:1]}, 0, knn=ks, cuts=[par["rcut"], rmax])
+        st = _CACHE["stats", name]
         par["ok_nn"] = {k: st["gap"][k] > 1e-7 for k in ks}
         par["ok_cut"] = st["cutgap"][0] > 1e-7
         par["ok_s2"] = st["cutgap"][1] > 1e-7
+        par["ok_tetra"] = par["ok_nn"][4]
         par["nl"] = [st["knn"][par["knn"]]]
-        par["tie"] = st["tie"]
     if obs in ("relaxx", "relaxu"):
         dia = np.array([par["dyn"]["diameters"][int(t)] for t in cfg["types"]])
         a2 = (dia * par["dyn"]["a"]) ** 2
@@ -130,8 +134,8 @@ def get_base(bid, seed, obs, tier="quick"):
         par = dict(synthetic_params(cfg))
         if obs in ("boo3d", "boo2d"):
             par["nl"] = [S.pair_stats(cfg, f, knn=[par["knn"]])["knn"][par["knn"]] for f in range(len(cfg["frames"]))]
-        if obs == "boo3d" and tier == "thorough":
-            par["w_l"] = [4, 6]
+        if obs == "boo3d" and tier == "thorough" and depth_for(obs, bid, tier) == 2:
+            par["w_l"] = [4, 6]  # sympy 3j symbols at l=6 cost 0.2 s per call: only on the depth-2 bases
         steps = [100 * (f + 1) for f in range(len(cfg["frames"]))]
     B = {"bid": bid, "cfg": cfg, "par": par, "steps": steps, "val": None, "aux": {}}
     _CACHE[key] = B
@@ -561,9 +565,14 @@ def gen_samples(tier, seed):
             opts = dict(GEN[obs])
             opts["rot"] = False
             gens = S.generators(B["cfg"], "thorough", **opts)
+            if tier == "quick" or len(B["cfg"]["types"]) > 4000:
+                # one or two generators of every kind (all axis permutations, both translations, three of the shifts)
+                d = sp["d"]
+                keep = {"T0", "T1", "S0+0", "Sm-1", f"Sl+{d - 1}", f"Fm{'+-'[(d - 1) % 2]}{d - 1}", "Prev", "Pcyc", "X12", "X1K", "D2", "Dh"}
+                gens = [g for g in gens if g in keep or g[0] == "A"]
             states, _ = S.bfs(B["cfg"], gens, 1, seed)
             words = [(w, n) for w, n in states]
-            if tier == "thorough":
+            if tier == "thorough" and len(B["cfg"]["types"]) <= 4000:
                 # selected depth-2 words: one generator of every kind composed with every other kind
                 rep = {}
                 for g in gens:
@@ -578,8 +587,6 @@ def run(case):
     R = Result()
     obs = case["obs"]
     B = get_base(case["base"], case["seed"], obs, case.get("tier", "quick"))
-    if obs == "tetra" and "ok_nn" in B["par"]:
-        B["par"]["ok_tetra"] = B["par"]["ok_nn"][4]
     compute, compare = OBS[obs]
     ident = S.identity(B["cfg"])
     if B["val"] is None:
@@ -614,7 +621,7 @@ RULES = {
     "gr": "gr().getresults(), widths 0.125 and 0.22, two frames, all columns, every bin without an edge-ambiguous pair",
     "sq": "sq().getresults() with the default wave-vector set (qrange 7) and an explicit asymmetric integer list (columns permuted with the axes); orthogonal cells",
     "neigh": "Nnearests (two N), cutoffneighbors, cutoffneighbors_particletype: neighbour SETS parsed from the files they write, two frames",
-    "boo3d": "boo_3d q_l, Q_l (l=4,6), w-hat_l, W-hat_l (l=4; +6 thorough) per particle; periodic bases and open clusters (+rotations)",
+    "boo3d": "boo_3d q_l, Q_l (l=4,6), w-hat_l, W-hat_l (l=4; thorough also l=6 on the depth-2 bases) per particle; periodic bases and open clusters (+rotations)",
     "boo2d": "boo_2d |psi_l| (l=3,4,6) per particle; periodic bases and open clusters (+rotations)",
     "tetra": "q8_tetrahedral per particle, two frames; periodic bases and open clusters (+rotations)",
     "s2": "S2.particle_s2 per particle (species-dependent widths)",
